@@ -214,3 +214,50 @@ class VisitGate:
                                         and result[j + 2][1] == dict_val_at(gate._parameters, j)._alias_from._name))
 
     raises_only = ("JaqalError",)
+
+
+from contracts_registers import wf_reg, size_val
+
+
+@spec
+def bound_ok(v, b) -> bool:
+    """an alias bound: absent, a literal, or a let with a numeric value (or overridden)"""
+    return b is None or is_int(b) or (type_is(b, Constant) and (has_key(v.override_dict, b._name) or is_int(b._value) or is_float(b._value)))
+
+
+@contract("core.algorithm.fill_in_let:LetFiller.visit_Register", props=["C05"])
+class VisitRegister:
+    """a register or alias is re-declared with every let in its size or bounds replaced by its value in the chosen
+    environment: ["register", name, size] / ["map", name, source name] / ["map", name, source name, start, stop,
+    step]; one already declared in the rebuilt circuit is referred to by name; a register with a literal size is
+    passed on unchanged.  An alias is ALWAYS re-declared (its source register is rebuilt, so the old object would
+    point at the input circuit)."""
+
+    def requires(self, reg):
+        return (wf_filler(self) and type_is(self, LetFiller) and type_is(reg, Register) and is_str(reg._name)
+                and implies(reg._alias_from is None, wf_reg(reg) and (is_int(reg._size) or bound_ok(self, reg._size)))
+                and implies(reg._alias_from is not None, isinstance(reg._alias_from, Register) and is_str(reg._alias_from._name)
+                            and (reg._alias_slice is None or (isinstance(reg._alias_slice, slice) and bound_ok(self, reg._alias_slice.start)
+                                                               and bound_ok(self, reg._alias_slice.stop) and bound_ok(self, reg._alias_slice.step)))))
+
+    def ensures_declared(self, reg, result):
+        return implies(reg._name in self.register_names, same(result, reg._name))
+
+    def ensures_register(self, reg, result):
+        return implies(not (reg._name in self.register_names) and reg._alias_from is None,
+                       implies(type_is(reg._size, Constant), isinstance(result, list) and len(result) == 3 and result[0] == "register"
+                               and result[1] == reg._name and same(result[2], cval(self, reg._size)))
+                       and implies(not type_is(reg._size, Constant), same(result, reg)))
+
+    def ensures_whole_alias(self, reg, result):
+        return implies(not (reg._name in self.register_names) and reg._alias_from is not None and reg._alias_slice is None,
+                       isinstance(result, list) and len(result) == 3 and result[0] == "map" and result[1] == reg._name
+                       and result[2] == reg._alias_from._name)
+
+    def ensures_slice_alias(self, reg, result):
+        return implies(not (reg._name in self.register_names) and reg._alias_from is not None and reg._alias_slice is not None,
+                       isinstance(result, list) and len(result) == 6 and result[0] == "map" and result[1] == reg._name
+                       and result[2] == reg._alias_from._name and same(result[3], subst(self, reg._alias_slice.start))
+                       and same(result[4], subst(self, reg._alias_slice.stop)) and same(result[5], subst(self, reg._alias_slice.step)))
+
+    raises_only = ("JaqalError",)
